@@ -1217,6 +1217,9 @@ pub struct MemReport {
 pub fn exec_end() -> MemReport {
     let s = sched();
     let mut g = s.lock();
+    if valloc::take_double_frees() > 0 && !g.faults.contains(&MemFault::DoubleFree) {
+        g.faults.push(MemFault::DoubleFree);
+    }
     let r = MemReport {
         faults: std::mem::take(&mut g.faults),
         crate_live_blocks: g.live.len(),
